@@ -1,5 +1,6 @@
 import RedisVerif.Lemmas.ClusterInv
 import RedisVerif.Lemmas.RegsUnique
+import RedisVerif.Lemmas.TwoDeltas
 
 /-!
 # C06 — Replicas converge once updates are delivered
@@ -16,6 +17,12 @@ Layer 1 (this file): convergence of the *replication state*.
   accepted the write.  (`rs_converges_partial` is the same under `Compat`; `Compat` is derived
   from `KindStable` by `compat_of_kind_stable`: canonical form and "a (slot, stamp) pair
   identifies one register" are proved of every execution in `Lemmas/RegsUnique.lean`.)
+* `rs_converges_two_deltas` — WITHOUT kind stability: a key with at most two distinct deltas in
+  the whole history (any kinds, e.g. a concurrent `SET` and `HSET` with equal Lamport time on two
+  nodes) converges once both are delivered everywhere, in any order and with any duplication;
+  only commutativity and idempotence of the merge are used (`Lemmas/TwoDeltas.lean`).  So
+  `cross_kind_divergence_counterexample` (three deltas, non-associativity) is the smallest shape
+  of the known finding `C06:cross-kind-order`.
 * `winner_is_max_stamp` — for an LWW (string) key the agreed register is the one with the
   greatest `(time, replica)` stamp among all writes of the key.
 * Full statements `C06_rs_converges` (no `Compat`) and `C06_full_value_converges` (expiry
@@ -247,6 +254,105 @@ theorem C06_full_value_converges_false : ¬ C06_full_value_converges := by
   intro h
   exact expiry_divergence_counterexample.2
     (h 2 false expiryRun kH expiry_divergence_counterexample.1)
+
+/-! ## convergence without kind stability: at most two distinct deltas -/
+
+/-- no `HSET` without a pair (the parser never produces one; `record_hash_write` with no field
+    keeps the old stamp, so it would be a type change that does not absorb the old value) -/
+def emptyHWrite : Ev → Bool
+  | .loc _ (.hwrite _ []) => true
+  | _ => false
+
+def NoEmptyHWrite (evs : List Ev) : Prop := ∀ e ∈ evs, emptyHWrite e = false
+
+instance (evs : List Ev) : Decidable (NoEmptyHWrite evs) := by
+  unfold NoEmptyHWrite; infer_instance
+
+/-- the distinct things replicas have to agree on for key `k`: the stripped deltas -/
+def deltasOf (c : Cluster) (k : Nat) : List RV :=
+  (c.sent.filter (fun m => m.key = k)).map (·.val.strip)
+
+/-- at most two distinct deltas for the key, tie-consistent with each other (decidable) -/
+def TwoDeltas (c : Cluster) (k : Nat) : Prop :=
+  deltasOf c k = [] ∨
+  ∃ a ∈ deltasOf c k, ∃ b ∈ deltasOf c k,
+    (∀ x ∈ deltasOf c k, x = a ∨ x = b) ∧ C07.TieConsistent a b
+
+instance (c : Cluster) (k : Nat) : Decidable (TwoDeltas c k) := by
+  unfold TwoDeltas; infer_instance
+
+/-- **C06 (replication state converges), two deltas, any kinds**: for every number of nodes and
+    every history (no empty HSET), a key for which at most two distinct deltas were ever issued —
+    of the same or of DIFFERENT CRDT kinds, with equal or different Lamport times — is held
+    identically by all nodes once every delta has been applied everywhere, whatever the order
+    and the duplication.  No `KindStable`. -/
+theorem rs_converges_two_deltas (n : Nat) (causal : Bool) (evs : List Ev) (k : Nat)
+    (hne : NoEmptyHWrite evs)
+    (h2 : TwoDeltas ((init n causal).run evs) k)
+    (hd : Delivered ((init n causal).run evs) k) : Agree ((init n causal).run evs) k := by
+  have hne' : ∀ e ∈ evs, ∀ i k', e ≠ .loc i (.hwrite k' []) := by
+    intro e he i k' heq
+    have := hne e he
+    rw [heq] at this
+    simp [emptyHWrite] at this
+  have hj : J ((init n causal).run evs).sent k 0 ((init n causal).run evs) :=
+    J_run_any (init n causal) evs hne' (J_init _ k 0 n causal) (fun m hm => hm)
+  intro i j si sj hsi hsj
+  rw [hj.value i si hsi, hj.value j sj hsj]
+  have hilt : i < ((init n causal).run evs).nodes.length := (List.getElem?_eq_some_iff.mp hsi).1
+  have hjlt : j < ((init n causal).run evs).nodes.length := (List.getElem?_eq_some_iff.mp hsj).1
+  have hsame : ∀ v, v ∈ ((init n causal).run evs).absorbed i k ↔
+      v ∈ ((init n causal).run evs).absorbed j k :=
+    fun v => ⟨same_absorbed hj hd i j hjlt v, same_absorbed hj hd j i hilt v⟩
+  -- everything absorbed is one of the deltas of the key
+  have hin : ∀ i' v, v ∈ ((init n causal).run evs).absorbed i' k →
+      v ∈ deltasOf ((init n causal).run evs) k ∧ v.WF := by
+    intro i' v hv
+    simp only [absorbed, List.mem_filterMap] at hv
+    obtain ⟨a, ha, hav⟩ := hv
+    split at hav
+    · rename_i hcond
+      simp only [Option.some.injEq] at hav
+      obtain ⟨m, hm, hmk, hmv⟩ := hj.log_sent a ha
+      refine ⟨?_, ?_⟩
+      · simp only [deltasOf, List.mem_map, List.mem_filter, decide_eq_true_eq]
+        exact ⟨m, ⟨hm, by rw [hmk]; exact hcond.2⟩, by rw [hmv, hav]⟩
+      · rw [← hav, ← hmv]; exact TwoDeltas.strip_wf (hj.sent_ok m hm).2
+    · cases hav
+  rcases h2 with hnil | ⟨a, ha, b, hb, hall, htie⟩
+  · -- no delta at all: nobody holds the key
+    have hnone : ∀ i', ((init n causal).run evs).absorbed i' k = [] := by
+      intro i'
+      cases hl : ((init n causal).run evs).absorbed i' k with
+      | nil => rfl
+      | cons v l =>
+        have := (hin i' v (by rw [hl]; simp)).1
+        rw [hnil] at this; cases this
+    rw [hnone i, hnone j]
+  · have hwf : ∀ x ∈ deltasOf ((init n causal).run evs) k, x.WF ∧ TwoDeltas.Stripped x := by
+      intro x hx
+      simp only [deltasOf, List.mem_map, List.mem_filter] at hx
+      obtain ⟨m, ⟨hm, _⟩, rfl⟩ := hx
+      exact ⟨TwoDeltas.strip_wf (hj.sent_ok m hm).2, TwoDeltas.stripped_strip _⟩
+    have t := TwoDeltas.table (hwf a ha).1 (hwf b hb).1 (hwf a ha).2 (hwf b hb).2 htie
+    have hcar : ∀ i' v, v ∈ ((init n causal).run evs).absorbed i' k → TwoDeltas.In a b v := by
+      intro i' v hv
+      rcases hall v (hin i' v hv).1 with h | h
+      · exact Or.inl h
+      · exact Or.inr (Or.inl h)
+    exact foldOpt_eq_of_aci (TwoDeltas.aci t) (hcar i) (hcar j) hsame
+
+/-- the concurrent first writes of two kinds with EQUAL Lamport time: node 0 `SET p v` @(1,r1),
+    node 1 `HSET p f x` @(1,r2), cross-delivered with a duplicate -/
+def tieRun : List Ev :=
+  [ .loc 0 (.write kH [118] none), .loc 1 (.hwrite kH [(fF, [120])]),
+    .deliver 1 0, .deliver 0 1, .deliver 1 0 ]
+
+example : NoEmptyHWrite tieRun ∧ TwoDeltas ((init 2 false).run tieRun) kH ∧
+    Delivered ((init 2 false).run tieRun) kH ∧
+    ¬ KindStable ((init 2 false).run tieRun) kH 0 ∧ ¬ KindStable ((init 2 false).run tieRun) kH 5 ∧
+    (((init 2 false).run tieRun).sent.map (·.val.ts)) = [⟨1, 1⟩, ⟨1, 2⟩] := by
+  decide
 
 /-! ## non-vacuity: a concurrent, reordered, duplicated schedule meeting the hypotheses -/
 
